@@ -71,7 +71,7 @@ RULE = ("accept: every ast.expr class x operator class as an atom (several spell
 EXPECTED_BRANCHES = [
     "accept.both_accept", "accept.both_reject", "accept.syntax", "accept.guard_dunder", "accept.guard_length",
     "corpus.accepted", "eval.match", "eval.scalar", "eval.array", "eval.mixed", "eval.zero_numerator", "eval.zero_denominator",
-    "eval.unmodelled", "deps.match", "deps.missing_name_raises", "plot.pass", "plot.accept", "plot.reject", "sidefx.clean_checks",
+    "eval.unmodelled", "reparse.checked", "reparse.with_dependencies", "deps.match", "deps.missing_name_raises", "plot.pass", "plot.accept", "plot.reject", "sidefx.clean_checks",
 ]
 
 # the mathematical names the property allows in the whitelist (Lean: Atomica.C19.allowedNames)
@@ -1082,6 +1082,38 @@ def run_whitelist(ctx):
 
 
 # ----------------------------------------------------------------------------------------------
+def run_reparse(ctx, accepted):
+    """'parsing has no side effects' and the reported dependencies are a function of the string: the list returned for one parse belongs to the caller
+    (the library's own callers remove 't'/'dt', filter flow names, sort in place); parsing the same string again must report the same names, and the
+    function returned must still evaluate from exactly the reported names."""
+    from atomica.function_parser import parse_function
+
+    r = ctx.rng
+    pool = [s for s in accepted if isinstance(s, str)]
+    for s in (r.sample(pool, min(len(pool), ctx.n(150, 1500)))):
+        try:
+            f1, d1 = parse_function(s)
+            first = list(d1)
+            if isinstance(d1, list):
+                # what callers do with their list
+                for nm in ("t", "dt"):
+                    if nm in d1:
+                        d1.remove(nm)
+                d1.sort(reverse=True)
+                d1.append("zz_callers_own")
+                if d1:
+                    d1.pop(0)
+            f2, d2 = parse_function(s)
+        except Exception as e:
+            ctx.violation({"api": "parse_function", "case": "reparse-raises"}, f"parsing {s!r} a second time raised {type(e).__name__}: {e}", {"string": s})
+            continue
+        ctx.count("reparse.checked")
+        if len(first) > 0:
+            ctx.count("reparse.with_dependencies")
+        if sorted(d2) != sorted(first):
+            ctx.violation({"api": "parse_function", "case": "reparse-deps"}, f"{s!r}: the first parse reported {sorted(first)}; after the caller edited ITS list, a second parse of the same string reports {sorted(d2)}", {"string": s})
+
+
 def run(ctx):
     import atomica  # noqa
 
@@ -1109,6 +1141,7 @@ def run(ctx):
         acc = run_accept(ctx, scratch, random_exprs(ctx, ctx.n(2500, 30000)), "random")
         run_eval(ctx, scratch, acc, ctx.n(3, 4), "random")
         run_missing_name(ctx, acc[: ctx.n(500, 5000)])
+        run_reparse(ctx, [a if isinstance(a, str) else a[0] for a in acc])
         run_sdiv_oracle(ctx)
         # 4. plot strings
         run_plot(ctx, scratch)
